@@ -9,7 +9,7 @@ from .simsched import Scheduler, SimQueue
 
 class FCfg:
     def __init__(self, n_workers=2, mulp=False, calls=((3, 1),), exact=False, none_inputs=False, input_kind=0, idle_gen=False,
-                 body_raises=False):
+                 body_raises=False, impatient=False):
         """calls: (items, chunk_size) — chunk size is 1 for mul_p_map;
         exact: the caller takes exactly as many results as there are items (zip / islice style) and drops the generator
         instead of running it into StopIteration (`Cfg.exact` in the model: no further poll of the result queue after the
@@ -24,6 +24,12 @@ class FCfg:
         # that was not started has done nothing
         self.idle_gen = idle_gen
         self.body_raises = body_raises  # the with-body raises after its last call (same steps in the model)
+        # oracle-only runs in which a timed operation may time out at any moment (slow workers), see poolsim.Cfg
+        self.impatient = impatient
+
+    @property
+    def oracle_only(self):
+        return self.impatient
 
     def cap(self):
         return multiprocessing.cpu_count() if self.mulp else self.n_workers
@@ -34,7 +40,8 @@ class FCfg:
 
     def to_json(self):
         return dict(n_workers=self.n_workers, mulp=self.mulp, calls=self.calls, exact=self.exact, none_inputs=self.none_inputs,
-                    input_kind=self.input_kind, idle_gen=self.idle_gen, body_raises=self.body_raises)
+                    input_kind=self.input_kind, idle_gen=self.idle_gen, body_raises=self.body_raises,
+                    impatient=self.impatient)
 
 
 def f(x):
@@ -45,6 +52,7 @@ class FSimEnv:
     def __init__(self, cfg):
         self.cfg = cfg
         self.sched = Scheduler()
+        self.sched.impatient = bool(getattr(cfg, "impatient", False))
         self.queues = {}
         self.results = []
         self.patches = []
@@ -87,6 +95,17 @@ class FSimEnv:
             env.sched.visible(f"join {name}", lambda: proc._sim.finished)
             env.sched.record(f"join {name}")
 
+        def w_alive(proc):
+            sim = getattr(proc, "_sim", None)
+            return sim is not None and not sim.finished
+
+        def w_exitcode(proc):
+            sim = getattr(proc, "_sim", None)
+            return 0 if (sim is not None and sim.finished) else None
+
+        for cls in ((workers.FunRunner,) if self.cfg.mulp else (pools.FunctorWorker,)):
+            self.patch(cls, "is_alive", w_alive)
+            self.patch(cls, "exitcode", property(w_exitcode))
         if self.cfg.mulp:
             self.patch(workers.FunRunner, "WORK_QUEUE", make_queue(self.cfg.cap()))
             self.patch(workers.FunRunner, "RESULTS_QUEUE", make_queue())
